@@ -290,11 +290,13 @@ def cmid_reader_rule(repo: Repo, rep, P: str, rule: str):
     table.  The CMID chunk precedes the options chunk, so the sequence must not depend on attachment state."""
     from .. import alg
     mod = repo.cls("Module", module="rv.modules.module")
-    lc = repo.own_method(mod, "load_cmid")
+    from .. import inline
+    lc = inline.split_rebinds(inline.normalize(repo, mod, repo.own_method(mod, "load_cmid")))
     con = f"{mod.file.rel}:Module.load_cmid"
     where = f"{mod.file.rel}:{lc.lineno}"
     data = [a.arg for a in lc.args.args if a.arg != "self"]
     fdefs = _once_defs(lc.body)
+    fconsts = {k: v.value for k, v in fdefs.items() if isinstance(v, ast.Constant) and isinstance(v.value, int) and not isinstance(v.value, bool)}
     loops = [n for n in walk_no_nested(lc) if isinstance(n, ast.For)]
     if len(loops) != 1 or not data:
         rep.inconclusive(f"{P}.{rule}", con, norm(lc)[:120], f"{len(loops)} loops; expected one loop over the controllers", where)
@@ -383,6 +385,15 @@ def cmid_reader_rule(repo: Repo, rep, P: str, rule: str):
     def leaf(e):
         if isinstance(e, ast.Name) and e.id == ivar:
             return alg.Poly.sym("i")
+        if isinstance(e, ast.Name) and e.id in fconsts:
+            return alg.Poly.const(fconsts[e.id])          # record_size = 8
+        if isinstance(e, (ast.Name, ast.Attribute)):
+            try:
+                c = repo.fold(e, ci=mod)
+                if isinstance(c, int) and not isinstance(c, bool):
+                    return alg.Poly.const(c)
+            except Exception:
+                pass
         return None
     for st, val in stores:
         v = _resolve(val, ldefs)
@@ -564,6 +575,128 @@ def array_chunk_classes(repo: Repo) -> List[Tuple[ClassInfo, ClassInfo, str]]:
     return out
 
 
+def _fmt_parts(e: ast.expr):
+    """A struct format expression as a list of constant strings, ('sym', text) and ('rep', code text, count text) items; None when
+    it has another shape.  '<' + self.type * self.length, f"<{self.type * self.length}" and f"<{self.type}" all read the same way."""
+    out: list = []
+
+    def add(x):
+        if isinstance(x, str) and out and isinstance(out[-1], str):
+            out[-1] += x
+        elif x != "":
+            out.append(x)
+
+    def go(x) -> bool:
+        if isinstance(x, ast.Constant) and isinstance(x.value, str):
+            add(x.value)
+            return True
+        if isinstance(x, ast.BinOp) and isinstance(x.op, ast.Add):
+            return go(x.left) and go(x.right)
+        if isinstance(x, ast.JoinedStr):
+            for v in x.values:
+                if isinstance(v, ast.Constant):
+                    add(v.value)
+                elif isinstance(v, ast.FormattedValue) and v.format_spec is None and v.conversion == -1:
+                    if not go(v.value):
+                        return False
+                else:
+                    return False
+            return True
+        if isinstance(x, ast.BinOp) and isinstance(x.op, ast.Mult):
+            for a, b in ((x.left, x.right), (x.right, x.left)):
+                if isinstance(a, (ast.Attribute, ast.Name)) and not (isinstance(b, ast.Constant) and isinstance(b.value, str)):
+                    add(("rep", norm(a), norm(b)))
+                    return True
+                if isinstance(a, ast.Constant) and isinstance(a.value, str):
+                    add(("rep", repr(a.value), norm(b)))
+                    return True
+            return False
+        if isinstance(x, (ast.Attribute, ast.Name)):
+            add(("sym", norm(x)))
+            return True
+        return False
+    return out if go(e) else None
+
+
+def _array_decoder(repo: Repo, arr: ClassInfo, sb: ast.FunctionDef) -> Tuple[str, str]:
+    """('ok' | '?' | 'bad', detail) for ArrayChunk._set_bytes: element k is decoded from value[k·es : (k+1)·es] with format
+    '<' + self.type for k < len(value) // es, single-field elements unwrapped, converted by python_type and appended to a fresh
+    self.values."""
+    from .. import alg, inline, packed
+    fn = inline.split_rebinds(inline.normalize(repo, arr, sb, aliases=True))
+    vparam = [a.arg for a in fn.args.args if a.arg != "self"][0]
+    fdefs = packed.single_defs(fn)
+    loops = [n for n in walk_no_nested(fn) if isinstance(n, ast.For)]
+    if len(loops) != 1 or not isinstance(loops[0].target, ast.Name) or not isinstance(loops[0].iter, ast.Call) or norm(loops[0].iter.func) != "range":
+        return "?", "one `for … in range(…)` loop expected"
+    lp = loops[0]
+    xv = lp.target.id
+    ES, N, X = alg.Poly.sym("es"), alg.Poly.sym("N"), alg.Poly.sym("x")
+
+    def leaf(e):
+        if norm(e) == "self.element_size":
+            return ES
+        if isinstance(e, ast.BinOp) and isinstance(e.op, ast.FloorDiv) and norm(e.left) == f"len({vparam})" and norm(packed.resolve_names(e.right, fdefs)) == "self.element_size":
+            return N
+        if isinstance(e, ast.Name) and e.id == xv:
+            return X
+        if isinstance(e, ast.Name) and e.id in fdefs:
+            return alg.to_poly(fdefs[e.id], leaf)
+        return None
+    try:
+        r = [alg.to_poly(a, leaf) for a in lp.iter.args]
+    except alg.NotAlgebraic as e:
+        return "?", f"loop range {norm(lp.iter)}: {e}"
+    zero, one = alg.Poly.const(0), alg.Poly.const(1)
+    start, stop, step = (zero, r[0], one) if len(r) == 1 else (r[0], r[1], one) if len(r) == 2 else (r[0], r[1], r[2])
+    # the unpack call and its slice
+    unp = [c for c in ast.walk(lp) if isinstance(c, ast.Call) and norm(c.func) in ("unpack", "struct.unpack") and len(c.args) == 2]
+    if len(unp) != 1:
+        return "?", f"{len(unp)} unpack calls in the loop"
+    ldefs = packed.single_defs(ast.Module(body=lp.body, type_ignores=[]))
+    alld = {**fdefs, **ldefs}
+    parts = _fmt_parts(packed.resolve_names(unp[0].args[0], alld))
+    sl = packed.resolve_names(unp[0].args[1], ldefs)
+    if parts is None or not (isinstance(sl, ast.Subscript) and isinstance(sl.slice, ast.Slice) and norm(sl.value) == vparam
+                             and sl.slice.lower is not None and sl.slice.upper is not None and sl.slice.step is None):
+        return "?", norm(unp[0])
+    if parts != ["<", ("sym", "self.type")]:
+        if len(parts) == 2 and parts[1] == ("sym", "self.type") and parts[0] in (">", "!", "=", "@"):
+            return "bad", f"elements are decoded with byte order {parts[0]!r}, the encoder writes '<'"
+        if len(parts) == 1 and parts[0] == ("sym", "self.type"):
+            return "bad", "elements are decoded in native byte order / alignment, the encoder writes '<'"
+        return "?", f"format {parts}"
+    try:
+        lo, hi = alg.to_poly(sl.slice.lower, leaf), alg.to_poly(sl.slice.upper, leaf)
+    except alg.NotAlgebraic as e:
+        return "?", f"slice bounds: {e}"
+    if hi - lo != ES:
+        return "bad", f"each element is cut as value[{lo} : {hi}] — {hi - lo} bytes instead of element_size"
+    by_index = (start, stop, step) == (zero, N, one) and lo == X * ES
+    by_offset = (start, stop, step) == (zero, N * ES, ES) and lo == X
+    if not (by_index or by_offset):
+        if step in (one, ES) and start == zero and (lo == X * ES or lo == X):
+            return "bad", f"elements are taken at {lo} for x in range({start}, {stop}, {step}): not every whole element of the data (N = len // es)"
+        return "?", f"range({start}, {stop}, {step}) with slice from {lo}"
+    # conversion and store
+    appends = [c for c in ast.walk(lp) if isinstance(c, ast.Call) and isinstance(c.func, ast.Attribute) and c.func.attr == "append" and len(c.args) == 1]
+    if len(appends) != 1:
+        return "?", f"{len(appends)} appends in the loop"
+    dest = norm(appends[0].func.value)
+    fresh = False
+    for n in walk_no_nested(fn):
+        if isinstance(n, ast.Assign) and isinstance(n.value, ast.List) and not n.value.elts and inline.pos(n) < inline.pos(lp):
+            tg = [norm(t) for t in n.targets]
+            if "self.values" in tg and (dest == "self.values" or dest in tg):
+                fresh = True
+    if not fresh:
+        return "?", f"decoded elements are appended to {dest}; no `self.values = []` before the loop"
+    item = packed.resolve_names(appends[0].args[0], ldefs)
+    if not (isinstance(item, ast.Call) and norm(item.func) == "self.python_type" and len(item.args) == 1):
+        return "bad", f"decoded elements are stored as {norm(item)[:60]} without the python_type conversion"
+    return "ok", ""
+
+
 def array_constants(repo: Repo, rep, P: str):
     arr = repo.cls("ArrayChunk", module="rv.chunks.array")
     rel = arr.file.rel
@@ -572,19 +705,37 @@ def array_constants(repo: Repo, rep, P: str):
     sb = arr.methods.get("_set_bytes")
     if g is None or sb is None:
         raise AnchorMissing("ArrayChunk.bytes/_set_bytes")
-    gs = norm(g.body[-1])
-    if gs == "return pack('<' + self.type * self.length, *self.encoded_values)":
+    from .. import alg, inline
+    from ..packed import single_defs, resolve_names
+    gn = inline.normalize(repo, arr, g, aliases=True)
+    gdefs = single_defs(gn)
+    gret = [st.value for st in walk_no_nested(gn) if isinstance(st, ast.Return)]
+    gs = norm(gret[-1]) if gret else norm(g)[:120]
+    gcall = resolve_names(gret[-1], gdefs) if len(gret) == 1 else None
+    gverdict = "?"
+    if isinstance(gcall, ast.Call) and norm(gcall.func) in ("pack", "struct.pack") and len(gcall.args) == 2:
+        parts = _fmt_parts(gcall.args[0])
+        vals = gcall.args[1]
+        if parts is not None and isinstance(vals, ast.Starred) and norm(vals.value) == "self.encoded_values":
+            if parts == ["<", ("rep", "self.type", "self.length")]:
+                gverdict = "ok"
+            elif len(parts) == 2 and isinstance(parts[0], str) and parts[0] in (">", "!", "=", "@") and isinstance(parts[1], tuple):
+                gverdict = f"byte order {parts[0]!r}"
+            elif parts and isinstance(parts[-1], tuple) and parts[-1][0] == "rep" and parts[-1][1:] != ("self.type", "self.length") and parts[:-1] == ["<"]:
+                gverdict = f"{parts[-1][2]} elements of {parts[-1][1]}"
+    if gverdict == "ok":
         rep.ok(f"{P}.R4", f"{rel}:ArrayChunk.bytes", gs, "little-endian, `length` elements of `type`")
+    elif gverdict == "?":
+        rep.inconclusive(f"{P}.R4", f"{rel}:ArrayChunk.bytes", gs, "array encoding not recognised", f"{rel}:{g.lineno}")
     else:
-        rep.violation(f"{P}.R4", f"{rel}:ArrayChunk.bytes", gs, "array bytes must be pack('<' + type*length, *encoded_values)", f"{rel}:{g.lineno}")
-    ss = norm(sb)
-    need = ["length = len(value) // self.element_size", "start = x * self.element_size", "end = start + self.element_size",
-            "unpack(f'<{self.type}', data)", "self.python_type(unpacked)", "self.values.append(actual)"]
-    missing = [n for n in need if n not in ss]
-    if not missing:
+        rep.violation(f"{P}.R4", f"{rel}:ArrayChunk.bytes", gs, f"array bytes must be pack('<' + type*length, *encoded_values) ({gverdict})", f"{rel}:{g.lineno}")
+    verdict, detail = _array_decoder(repo, arr, sb)
+    if verdict == "ok":
         rep.ok(f"{P}.R4", f"{rel}:ArrayChunk._set_bytes", "unpack(f'<{self.type}', value[x*es:(x+1)*es]) per element", "same byte order and element type as the getter")
+    elif verdict == "?":
+        rep.inconclusive(f"{P}.R4", f"{rel}:ArrayChunk._set_bytes", detail, "array decoding not recognised", f"{rel}:{sb.lineno}")
     else:
-        rep.violation(f"{P}.R4", f"{rel}:ArrayChunk._set_bytes", f"missing: {missing}",
+        rep.violation(f"{P}.R4", f"{rel}:ArrayChunk._set_bytes", detail,
                       "array decoding no longer mirrors the encoder (byte order / element type / stride)", f"{rel}:{sb.lineno}")
     used = array_chunk_classes(repo)
     rep.count("array_chunk_instances", len(used), 12)
@@ -768,17 +919,25 @@ def drawn_waveforms(repo: Repo, rep, P: str):
     wc = repo.cls("WaveformChunk", module="rv.chunks.waveform")
     g = wc.getters.get("bytes")
     rel = wc.file.rel
+    from .. import bits as _bits
     mask_bits = None
+    w_verdict = "?"
     for n in walk_no_nested(g):
-        if isinstance(n, ast.GeneratorExp) and isinstance(n.elt, ast.BinOp) and isinstance(n.elt.op, ast.BitAnd):
+        if isinstance(n, (ast.GeneratorExp, ast.ListComp)) and len(n.generators) == 1 and isinstance(n.generators[0].target, ast.Name) \
+                and norm(n.generators[0].iter) == "self.samples" and not n.generators[0].ifs:
+            yv = n.generators[0].target.id
             try:
-                m = repo.fold(n.elt.right, ci=wc)
-                if m & (m + 1) == 0:
-                    mask_bits = m.bit_length()
-            except NotConst:
+                ev = _bits.BitEval(repo, wc, {yv: _bits.BV.term("y")})
+                lb = _bits.low_bits_of_single_term(ev.ev(n.elt))
+                if lb is not None and lb[0] == "y":
+                    mask_bits = lb[1]
+                    w_verdict = "ok" if mask_bits == 8 else "bad"
+            except _bits.Unsupported:
                 pass
-    if mask_bits == 8:
+    if w_verdict == "ok":
         rep.ok(f"{P}.R7", f"{rel}:WaveformChunk.bytes", "bytes(y & 0xFF for y in samples)", "two's-complement byte of each sample")
+    elif w_verdict == "?":
+        rep.inconclusive(f"{P}.R7", f"{rel}:WaveformChunk.bytes", norm(g)[:160], "sample encoding not recognised", f"{rel}:{g.lineno}")
     else:
         rep.violation(f"{P}.R7", f"{rel}:WaveformChunk.bytes", norm(g)[:160], "8-bit samples must be written as y & 0xFF", f"{rel}:{g.lineno}")
     bodies = []
@@ -798,7 +957,7 @@ def drawn_waveforms(repo: Repo, rep, P: str):
                     except NotConst:
                         ok = False
         con = f"{ci.file.rel}:{cname}.load_drawn_waveform"
-        if ok and mask_bits == 8:
+        if ok and mask_bits in (8, None):
             rep.ok(f"{P}.R7", con, "(b & 0x7F) - (b & 0x80) for b in chunk.chdt", "8-bit sign extension: inverse of y & 0xFF on [-128, 127]")
         else:
             rep.violation(f"{P}.R7", con, norm(fn)[:200], "drawn waveform bytes must be sign-extended with (b & 0x7F) - (b & 0x80)",
@@ -822,12 +981,53 @@ def drawn_waveforms(repo: Repo, rep, P: str):
     else:
         rep.violation(f"{P}.R7", f"{dw.file.rel}:DrawnWaveformChunk.chunks", s[:160], "a drawn waveform may be omitted only when it equals the default",
                       dw.file.rel)
-    init = repo.own_method(wc, "__init__")
+    from .. import inline, guards
+    from . import c14
+    init0 = repo.own_method(wc, "__init__")
+    init = inline.normalize(repo, wc, init0, aliases=True)
     si = norm(init)
-    if "self.samples = self.default[:] if self.default is not None else []" in si:
+    gi = CFG(init)
+    domi = gi.dominators()
+    cases = []       # (value expression, facts)
+    for n in gi.nodes:
+        if n.kind == "stmt" and isinstance(n.ast, ast.Assign) and any(norm(t) == "self.samples" for t in n.ast.targets):
+            known = c14._facts(c14._dominating_conditions(gi, domi, n.id))
+            v = n.ast.value
+            if isinstance(v, ast.IfExp):
+                cases.append((v.body, known | guards.facts(v.test, True)))
+                cases.append((v.orelse, known | guards.facts(v.test, False)))
+            else:
+                cases.append((v, known))
+
+    def copy_of_default(e: ast.expr) -> bool:
+        t = norm(e)
+        return t in ("self.default[:]", "list(self.default)", "self.default.copy()", "copy(self.default)", "copy.copy(self.default)",
+                     "[*self.default]", "deepcopy(self.default)", "copy.deepcopy(self.default)") or \
+            (isinstance(e, ast.ListComp) and len(e.generators) == 1 and norm(e.generators[0].iter) == "self.default"
+             and not e.generators[0].ifs and norm(e.elt) == norm(e.generators[0].target))
+    verdicts = []
+    expanded = []
+    for v, known in cases:
+        if isinstance(v, ast.BoolOp):          # `self.default or []` evaluates to one of its operands
+            expanded.extend((x, set()) for x in v.values)
+        else:
+            expanded.append((v, known))
+    for v, known in expanded:
+        if "self.default is not None" in known:
+            verdicts.append("ok" if copy_of_default(v) else ("shared" if norm(v) == "self.default" else "?"))
+        elif "self.default is None" in known:
+            verdicts.append("ok" if isinstance(v, ast.List) and not v.elts else "?")
+        else:
+            verdicts.append("shared" if norm(v) == "self.default" else "?")
+    if cases and all(x == "ok" for x in verdicts) and any("self.default is not None" in k for _, k in cases):
         rep.ok(f"{P}.R7", f"{rel}:WaveformChunk.__init__", "samples = default[:]", "reader-side default is the same list the omission test compares with")
-    else:
+    elif "shared" in verdicts:
         rep.violation(f"{P}.R7", f"{rel}:WaveformChunk.__init__", si[:160], "a fresh waveform must start as a copy of the class default", rel)
+    elif not cases:
+        rep.violation(f"{P}.R7", f"{rel}:WaveformChunk.__init__", si[:160], "a fresh waveform must start as a copy of the class default "
+                      "(samples are never initialised)", rel)
+    else:
+        rep.inconclusive(f"{P}.R7", f"{rel}:WaveformChunk.__init__", si[:160], "initial samples not recognised as a copy of the class default", rel)
     try:
         d = repo.fold(dw.assigns["default"], ci=dw)
         fl = repo.fold(dw.assigns["fixed_length"], ci=dw)
